@@ -309,6 +309,28 @@ fn malformed_fragment(u: &mut U, x: &Big) -> (String, &'static str) {
         26 => (["\"0x-1\"", "\"--1\"", "\"-\"", "\"0x-\"", "\"0x+1\"", "\"0x+ff\"", "\"0x+\"", "\"0x 1\"", "\"0x0x1\"", "\"0x0xff\"", "\"00x1\""][u.below(11)].to_string(), "bad-sign"),
         27 => (["-1e0", "-1.5", "-1e30", "-0.5"][u.below(4)].to_string(), "negative-float"),
         28 => (["-9223372036854775808", "-9223372036854775809", "-18446744073709551616"][u.below(3)].to_string(), "negative-int"),
+        29..=31 => {
+            // every ASCII character that is not a digit of the radix, in a digit position of a short string
+            // (control characters included: a hand-written digit decoder that folds case with `c | 0x20` maps
+            // 0x10..0x19 onto the digits)
+            let hex = u.bool();
+            let c = loop {
+                let c = (1 + u.below(127)) as u8 as char;
+                let is_digit = if hex { c.is_ascii_hexdigit() } else { c.is_ascii_digit() };
+                if !is_digit && !matches!(c, 'e' | 'E' | '+') {
+                    break c;
+                }
+            };
+            let mut esc = String::new();
+            crate::gen::json::escape(&c.to_string(), &mut esc);
+            let esc = esc[1..esc.len() - 1].to_string(); // without the surrounding quotes
+            let body = match u.below(3) {
+                0 => format!("1{esc}"),
+                1 => format!("{esc}1"),
+                _ => format!("1{esc}1"),
+            };
+            (format!("\"{}{body}\"", if hex { "0x" } else { "" }), if hex { "char-sweep-hex" } else { "char-sweep-dec" })
+        }
         _ => (format!("\"-{xs}\""), "negative-dec-string"),
     }
 }
@@ -476,7 +498,25 @@ fn gen_bytes_case(tape: Vec<u8>) -> BytesCase {
             "al-address" => hex_lower(&a0),
             _ => hex_lower(&s0),
         };
-        let (text, kind, expect): (String, &str, Option<bool>) = match u.below(9) {
+        let (text, kind, expect): (String, &str, Option<bool>) = match u.below(14) {
+            9..=13 if !digits.is_empty() => {
+                // one digit replaced by an ASCII character that is not a hex digit (0x01..0x7f, control characters
+                // and white space included): same length, right prefix
+                let c = loop {
+                    let c = (1 + u.below(127)) as u8 as char;
+                    if !c.is_ascii_hexdigit() {
+                        break c;
+                    }
+                };
+                let at = match u.below(3) {
+                    0 => 0,
+                    1 => digits.len() - 1,
+                    _ => u.below(digits.len()),
+                };
+                let mut d: Vec<char> = digits.chars().collect();
+                d[at] = c;
+                (format!("0x{}", d.into_iter().collect::<String>()), "digit-replaced-by-ascii-non-hex", Some(false))
+            }
             0 => (format!("x0{digits}"), "x0", Some(false)),
             1 => (format!("  {digits}"), "two-blanks", Some(false)),
             2 => (format!("{}{digits}", hex_lower(&u.bytes(1))), "two-more-digits-no-prefix", Some(false)),
@@ -485,7 +525,8 @@ fn gen_bytes_case(tape: Vec<u8>) -> BytesCase {
             5 => (format!("\u{ff10}x{}", digits.get(1..).unwrap_or("")), "fullwidth-zero", Some(false)),
             6 => (format!("#x{digits}"), "hash-sign", Some(false)),
             7 => (format!("0X{digits}"), "0X", None),
-            _ => (format!("0\u{445}{}", digits.get(1..).unwrap_or("")), "cyrillic-x", Some(false)),
+            8 => (format!("0\u{445}{}", digits.get(1..).unwrap_or("")), "cyrillic-x", Some(false)),
+            _ => (format!("x0{digits}"), "x0", Some(false)),
         };
         let what: String = format!("{field}-same-length-prefix-{kind}");
         match field {
